@@ -27,7 +27,7 @@ def seg(P, a, b):
     c2 = np.einsum("ij,ij->i", c, c)
     n1 = np.linalg.norm(r1, axis=1)
     n2 = np.linalg.norm(r2, axis=1)
-    on_line = c2 <= 1e-24 * np.maximum(1e-300, (n1 * n2) ** 2)
+    on_line = c2 <= 1e-18 * np.maximum(1e-300, (n1 * n2) ** 2)  # sin(angle) <= 1e-9: coordinates of size 10 place the mid-point of a millimetre-long segment this far off its line
     c2s = np.where(on_line, 1.0, c2)
     n1s = np.where(n1 == 0, 1.0, n1)
     n2s = np.where(n2 == 0, 1.0, n2)
